@@ -48,8 +48,10 @@ LEVEL_TEXT = ("Machine-checked, for EVERY input and EVERY allocator behaviour (a
               "constructors with roll-back (new_double_s, new_object, new_array, printbuf_new, tokener_new).  Each repaired defect has a negative "
               "control: the original code shape is kept as a second definition with a *_refuted theorem whose witness is evaluated by vm_compute. "
               "PARTIAL: the tokener's other allocation sites (token buffer appends, node constructors, member-name copy inside the state machine), "
-              "deep copy, JSON pointer set and JSON patch are NOT covered by theorems; they are covered only by the exhaustive-k fault enumeration "
-              "of this check on the sampled workloads.")
+              "json_tokener_parse_verbose / json_object_from_fd_ex, deep copy, JSON pointer get/set, JSON patch, json_object_get_string of a "
+              "non-string and json_c_set_serialization_double_format are NOT covered by theorems; they are covered only by the exhaustive-k "
+              "fault enumeration of this check on the sampled workloads (every allocation index of each workload, plus sampled double faults "
+              "in the thorough tier).")
 LEVEL_NOTE = ("Trusted: Coq kernel; extraction + OCaml glue; harness and allocator interposition; ASan/UBSan.  The theorems are about the Gallina models; "
               "json-c is tied to them by differential execution (N and every per-k outcome of the modelled operations) and, for the unmodelled "
               "operations (tokener beyond the attach step, deep copy, pointer, patch), only by the runtime enumeration — sampled workloads, all k.")
@@ -345,7 +347,16 @@ def findings(line_, impl):
     return sorted(res.items(), key=lambda kv: KNOWN_CLASSES_ORDER.index(kv[0]))
 
 
+STATS = {"fault_runs": 0, "documented_failures": 0, "normal_despite_fault": 0, "max_allocations_in_one_workload": 0}
+
+
 def oracle(line_, meta, impl):
+    ob = parse_obs(impl)
+    if ob:
+        STATS["fault_runs"] += len(ob["toks"])
+        STATS["documented_failures"] += sum(1 for t in ob["toks"] if t["cls"] == "F")
+        STATS["normal_despite_fault"] += sum(1 for t in ob["toks"] if t["cls"] == "N")
+        STATS["max_allocations_in_one_workload"] = max(STATS["max_allocations_in_one_workload"], ob["n"])
     fs = findings(line_, impl)
     if not fs:
         return None
@@ -368,7 +379,7 @@ def nontrivial(line_, meta, impl):
 
 
 def extra_coverage():
-    return {}
+    return dict(STATS)
 
 
 # ------------------------------------------------------------------ shrinking: the single k, fewer operations
